@@ -52,4 +52,7 @@ func init() {
 	registerGoLite(glGroup{id: "golitec14", out: "GoLiteC14.v", pkgDir: "ipld/ipldbindcode",
 		funcs:   []glFunc{{name: "VerifyHash"}},
 		externs: []string{"checksumCrc64", "checksumFnv"}})
+	registerGoLite(glGroup{id: "golitec16", out: "GoLiteC16.v", pkgDir: "split-car-fetcher",
+		funcs:   []glFunc{{recv: "MultiReaderAt", name: "ReadAt"}},
+		externs: []string{"io.ReaderAt.ReadAt:out0"}, hoist: true})
 }
